@@ -213,18 +213,19 @@ def _call(args: tuple[int, Any]) -> tuple[int, Any]:
         return idx, ("internal", traceback.format_exc())
 
 
-def pmap(fn: Callable[[Any], Any], items: Iterable[Any], nproc: int = NPROC, chunk: int = 1) -> list[Any]:
+def pmap(fn: Callable[[Any], Any], items: Iterable[Any], nproc: int = NPROC, chunk: int = 1, fresh: bool = False) -> list[Any]:
     """Deterministic parallel map: work is sharded by index, results merged in index
     order. fn must be a module-level function (fork start method, fandango imported in
     the parent).  An exception inside fn is an internal error, never a verdict."""
     global _WORKER_FN
     items = list(items)
     _WORKER_FN = fn
-    if nproc <= 1 or len(items) <= 1:
+    if (nproc <= 1 or len(items) <= 1) and not fresh:
         out = [_call((i, it)) for i, it in enumerate(items)]
     else:
         ctx = mp.get_context("fork")
-        with ctx.Pool(min(nproc, len(items))) as pool:
+        # fresh=True: every item runs in its own forked process (no state survives between items)
+        with ctx.Pool(min(nproc, len(items)), maxtasksperchild=1 if fresh else None) as pool:
             out = list(pool.imap_unordered(_call, list(enumerate(items)), chunksize=chunk))
     out.sort(key=lambda x: x[0])
     res = []
